@@ -34,7 +34,7 @@ MANIFEST = {
             "symbolic texts of up to 2 (quick) / 3 (thorough) code points through the real Lark lexer and LALR driver: every path ends in a tree or a CELParseError whose line/column "
             "is proved to be a position of the text.",
     "note": "Program skeletons enumerated (kinds x contexts), data symbolic. The parser itself (Lark, C re) is outside; malformed-string cases are an enumeration and labelled so.",
-    "technique": "symbolic execution of the real Python byte-code with shadow builtins + z3; exception-class obligations per path; counterexample replay",
+    "technique": "symbolic execution of the real Python byte-code with shadow builtins + z3 (incl. Lark's pure-Python lexer loop and LALR driver on symbolic text, scanner regexes through a concolic matcher); exception-class and position obligations per path; counterexample replay",
     "design_ref": "DESIGN.md §7 C04",
 }
 
